@@ -38,7 +38,8 @@ def run_main(argv, stdin_text):
 def doc_text(d, j=0):
     if d["j"] == "notjson":
         return NOTJSON_TEXTS[j % len(NOTJSON_TEXTS)]
-    return json.dumps(to_py(d))
+    # a JSON text on one line: non-ASCII characters may stand unescaped (U+2028 / U+0085 are not line ends in NDJSON: only LF is)
+    return json.dumps(to_py(d), ensure_ascii=(j % 2 == 1))
 
 
 def expr_text(e, spelling):
